@@ -76,11 +76,22 @@ theorem filter_weakly_dominated_preserves_union (r : Pt) (L : List Pt) (hL : ∀
 
 example : frontSorted id 3 [[0, 1, 1], [0, 1, 1], [1, 0, 2], [1, 1, 1]] = [[0, 1, 1], [1, 0, 2]] := by decide
 
-/-- **compute2d_eq_spec.** the staircase sweep `_compute_2d` on rows sorted by column 0 whose second
-coordinates do not increase (a Pareto staircase, duplicates allowed). -/
+/-- **compute2d_eq_spec.** the sweep `_compute_2d` (running minimum of the second coordinate) on rows `≤ r` sorted
+by column 0 — in ANY order of the rows that tie in column 0, dominated rows and duplicates included — is the
+dominated area. -/
 theorem compute2d_eq_spec (r : Pt) (hr : r.length = 2) (S : List Pt) (hS : ∀ p ∈ S, Le p r)
-    (hs : Sorted0 S) (hd : Desc1 S) : compute2d r S = hvSpec S r :=
-  compute2d_eq_spec' r hr S hS hs hd
+    (hs : Sorted0 S) : compute2d r S = hvSpec S r :=
+  compute2d_eq_spec' r hr S hS hs
+
+/-- … in particular the result does not depend on which order `argsort` of column 0 gives to tied rows. -/
+theorem compute2d_any_tie_order (r : Pt) (hr : r.length = 2) (S S' : List Pt) (hS : ∀ p ∈ S, Le p r)
+    (hp : S'.Perm S) (hs : Sorted0 S') : compute2d r S' = hvSpec S r :=
+  OptunaVerif.Hypervolume.compute2d_any_tie_order r hr S S' hS hp hs
+
+-- non-vacuity: x-ties in both orders, a dominated row, a duplicate
+example : compute2d [4, 4] [[0, 3], [1, 2], [1, 1], [1, 1], [2, 3], [3, 0]] = 11 ∧
+    compute2d [4, 4] [[0, 3], [1, 1], [1, 2], [1, 1], [2, 3], [3, 0]] = 11 ∧
+    hvSpec [[0, 3], [1, 2], [1, 1], [1, 1], [2, 3], [3, 0]] [4, 4] = 11 := by decide
 
 example : compute2d [4, 4] [[0, 3], [1, 1], [1, 1], [3, 0]] = 11 := by decide
 example : hvSpec [[0, 3], [1, 1], [1, 1], [3, 0]] [4, 4] = 11 := by decide
@@ -94,30 +105,37 @@ theorem compute_hypervolume_exact (S : List Pt) (r : Pt) (hS : ∀ p ∈ S, Le p
 example : computeHypervolume [[.fin 0, .fin 0], [.fin 1, .fin 1], [.fin 1, .fin 1]] [.fin 2, .fin 2] false
     = HvOut.fin 4 := by decide
 
-/-- `assume_pareto=True` never changes the result in any dimension other than 2 … -/
-theorem compute_hypervolume_assume_pareto_exact (S : List Pt) (r : Pt) (hS : ∀ p ∈ S, Le p r)
-    (hd : r.length ≠ 2) :
+/-- `assume_pareto=True` (sort by column 0 only, no `unique`, no Pareto filter) is exact for every dimension and
+every rows `≤ r`. -/
+theorem compute_hypervolume_assume_pareto_exact (S : List Pt) (r : Pt) (hS : ∀ p ∈ S, Le p r) :
     computeHypervolume (S.map liftPt) (liftPt r) true = HvOut.fin (hvSpec S r) := by
-  rw [computeHypervolume_lift S r true hS, computeHypervolumeFin_assumePareto_eq_spec S r hS hd]
+  rw [computeHypervolume_lift S r true hS, computeHypervolumeFin_assumePareto_eq_spec_all S r hS]
 
 example : computeHypervolume [[.fin 0, .fin 0, .fin 0], [.fin 1, .fin 1, .fin 1]] [.fin 2, .fin 2, .fin 2] true
     = HvOut.fin 8 := by decide
 
-/-- … and in 2-D it is exact when the rows really are mutually non-dominated (duplicates allowed). -/
+/-- 2-D included, with NO Pareto hypothesis (dominated rows, duplicates, ties in either coordinate). -/
 theorem compute_hypervolume_assume_pareto_2d_exact (S : List Pt) (r : Pt) (hS : ∀ p ∈ S, Le p r)
-    (hd : r.length = 2) (ha : Antichain S) :
-    computeHypervolume (S.map liftPt) (liftPt r) true = HvOut.fin (hvSpec S r) := by
-  rw [computeHypervolume_lift S r true hS, computeHypervolumeFin_assumePareto_2d_eq_spec S r hS hd ha]
+    (_hd : r.length = 2) :
+    computeHypervolume (S.map liftPt) (liftPt r) true = HvOut.fin (hvSpec S r) :=
+  compute_hypervolume_assume_pareto_exact S r hS
 
 example : computeHypervolume [[.fin 1, .fin 0], [.fin 0, .fin 1], [.fin 0, .fin 1]] [.fin 2, .fin 2] true
     = HvOut.fin 3 := by decide
 
-/-- **Finding (replayed on the real code by the harness).** The docstring of `compute_hypervolume` says
-`assume_pareto` "does not change the result even if this argument is wrongly given".  In 2-D that is
-false on today's code: the sweep subtracts area for a dominated row. -/
-theorem assume_pareto_2d_wrong_on_dominated_input :
-    computeHypervolume [[.fin 0, .fin 0], [.fin 1, .fin 1]] [.fin 2, .fin 2] true = HvOut.fin 3 ∧
-      hvSpec [[0, 0], [1, 1]] [2, 2] = 4 := by decide
+/-- **assume_pareto_never_changes_result.**  The docstring's promise ("does not change the result even if this
+argument is wrongly given") holds in every dimension: for all finite rows that pass the reference-point check the
+two settings of the flag give the same value, the dominated volume. -/
+theorem assume_pareto_never_changes_result (S : List Pt) (r : Pt) (hS : ∀ p ∈ S, Le p r) :
+    computeHypervolume (S.map liftPt) (liftPt r) true = computeHypervolume (S.map liftPt) (liftPt r) false ∧
+      computeHypervolume (S.map liftPt) (liftPt r) true = HvOut.fin (hvSpec S r) := by
+  rw [compute_hypervolume_assume_pareto_exact S r hS, compute_hypervolume_exact S r hS]
+  exact ⟨rfl, rfl⟩
+
+-- non-vacuity: the input of the repaired finding F22 ([[0,0],[2,3]] is not a Pareto set): 24 with and without the flag
+example : computeHypervolume [[.fin 0, .fin 0], [.fin 2, .fin 3]] [.fin 4, .fin 6] true = HvOut.fin 24 ∧
+    computeHypervolume [[.fin 0, .fin 0], [.fin 2, .fin 3]] [.fin 4, .fin 6] false = HvOut.fin 24 ∧
+    hvSpec [[0, 0], [2, 3]] [4, 6] = 24 := by decide
 
 /-- **reference-point check**: finite rows that do not all weakly dominate the reference point are
 rejected (`ValueError`). -/
